@@ -3,6 +3,7 @@
 //! over the decoded output and the input records; no call into grcov, no use of the model).
 use crate::decode::*;
 use crate::gen::*;
+use crate::printed::{judge, Kind};
 use corrlib::*;
 use grcov::CovResult;
 use std::collections::BTreeMap;
@@ -13,6 +14,11 @@ pub const WRITERS: &[&str] = &["lcov", "covdir", "cobertura", "markdown", "ade",
 /// named matchers of known defects (call site + failing condition)
 pub const F_ADE_NULL: &str = "C13-ade-null-zero-lines";
 pub const F_HTML_ROOT: &str = "C13-html-root-dir-replaces-index";
+/// the same reported path twice: `HtmlStats::add` counts both records, the row map keeps one row
+pub const F_HTML_DUP: &str = "C13-html-duplicate-path";
+/// the header of a file page counts the record's lines, the page lists the source's lines: a source
+/// with fewer lines than the record's highest line (short / stale source) or a line 0
+pub const F_HTML_UNLISTED: &str = "C13-html-header-counts-unlisted-lines";
 
 #[derive(Clone, Debug)]
 pub struct OFail {
@@ -124,6 +130,15 @@ fn check_rate(
                 fail(out, format!("{}: printed {} but {}·{}/{} = {} (tolerance {:e})", at, fig.0, scale, covered, total,
                     scale as f64 * covered as f64 / total as f64, tol.bound()));
             }
+        }
+    }
+}
+
+/// shape and rounding of one printed percentage (part Printed)
+fn judge_pct(out: &mut Vec<OFail>, at: &str, kind: Kind, p: usize, fig: &Fig, covered: u64, total: u64) {
+    if total != 0 && fig.value().is_some() {
+        if let Some(w) = judge(kind, p, 100 * covered as u128, total as u128, &fig.0) {
+            fail(out, format!("{}: {}", at, w));
         }
     }
 }
@@ -302,6 +317,7 @@ fn obs_covdir(env: &Env, case: &Case, text: &str) -> Result<Obs, String> {
             fail(&mut of, format!("{}: covered {} + missed {} != total {}", at, n.covered, n.missed, n.total));
         }
         check_rate(&mut of, &at, &n.pct, n.covered, n.total, 100, tol, None);
+        judge_pct(&mut of, &at, Kind::Covdir, case.precision, &n.pct, n.covered, n.total);
         if n.is_dir {
             let (mut t, mut c, mut m) = (0, 0, 0);
             for &k in &n.children {
@@ -492,6 +508,7 @@ fn obs_markdown(case: &Case, text: &str) -> Result<Obs, String> {
             fail(&mut of, format!("{}: covered {} > total {}", at, r.covered, r.total));
         }
         check_rate(&mut of, &at, &r.pct, r.covered, r.total, 100, tol, None);
+        judge_pct(&mut of, &at, Kind::Markdown, case.precision, &r.pct, r.covered, r.total);
         tc += r.covered;
         tl += r.total;
         if let Some(f) = case.files.get(i) {
@@ -511,6 +528,7 @@ fn obs_markdown(case: &Case, text: &str) -> Result<Obs, String> {
     }
     toks.push(format!("T=~{}", doc.total.0));
     check_rate(&mut of, "markdown total", &doc.total, tc, tl, 100, tol, None);
+    judge_pct(&mut of, "markdown total", Kind::Markdown, case.precision, &doc.total, tc, tl);
     Ok(Obs {
         canon: format!("ok {}", toks.join(" ")),
         ofails: of,
@@ -643,6 +661,7 @@ fn check_page(of: &mut Vec<OFail>, at: &str, p: &HPage, case: &Case) {
             fail(of, format!("{}: covered {} > total {}", a, s.covered, s.total));
         }
         check_rate(of, &a, &s.pct, s.covered, s.total, 100, tol, None);
+        judge_pct(of, &a, Kind::Html, case.precision, &s.pct, s.covered, s.total);
     }
     let mut sum: Six = (0, 0, 0, 0, 0, 0);
     for r in &p.rows {
@@ -659,9 +678,11 @@ fn check_page(of: &mut Vec<OFail>, at: &str, p: &HPage, case: &Case) {
                 fail(of, format!("{} {}: covered {} > total {}", a, k, s.covered, s.total));
             }
             check_rate(of, &format!("{} {}", a, k), &s.pct, s.covered, s.total, 100, tol, None);
+            judge_pct(of, &format!("{} {}", a, k), Kind::Html, case.precision, &s.pct, s.covered, s.total);
         }
         // the progress bar shows the line figure too
         check_rate(of, &format!("{} progress text", a), &r.progress_text, r.lines.covered, r.lines.total, 100, tol, None);
+        judge_pct(of, &format!("{} progress text", a), Kind::Html, case.precision, &r.progress_text, r.lines.covered, r.lines.total);
         check_rate(of, &format!("{} progress value", a), &r.progress_value, r.lines.covered, r.lines.total, 100, Tol::Abs(EPS64), None);
         sum = six_add(sum, six_of_row(r));
     }
@@ -670,6 +691,20 @@ fn check_page(of: &mut Vec<OFail>, at: &str, p: &HPage, case: &Case) {
         fail(of, format!("{}: summary (lines total,covered, functions total,covered, branches total,covered) = {:?} but the rows sum to {:?}",
             at, six_of_summary(p), sum));
     }
+}
+
+/// the directories (and "" for the global index) whose pages a repeated path makes inconsistent
+fn dup_dirs(case: &Case) -> Vec<String> {
+    let mut v = vec![];
+    for (rel, _) in dup_paths(case) {
+        if case.files.iter().any(|f| f.rel == rel && !f.rel_abs && f.exists) {
+            v.push(match rel.rsplit_once('/') {
+                Some((p, _)) => p.to_string(),
+                None => String::new(),
+            });
+        }
+    }
+    v
 }
 
 fn obs_html(case: &Case, out: &Path) -> Result<Obs, String> {
@@ -718,8 +753,10 @@ fn obs_html(case: &Case, out: &Path) -> Result<Obs, String> {
 
     // expected from the input, independently: files that are shown, grouped by parent
     let shown: Vec<&FileCase> = case.files.iter().filter(|f| !f.rel_abs && f.exists).collect();
+    let dups = dup_paths(case);
     let mut global: Six = (0, 0, 0, 0, 0, 0);
     let mut by_dir: BTreeMap<String, Six> = BTreeMap::new();
+    let mut names: std::collections::BTreeSet<&str> = Default::default();
     for f in &shown {
         let s = six_of_cov(&f.cov, case.branch);
         global = six_add(global, s);
@@ -729,22 +766,62 @@ fn obs_html(case: &Case, out: &Path) -> Result<Obs, String> {
         };
         let e = by_dir.entry(parent.clone()).or_insert((0, 0, 0, 0, 0, 0));
         *e = six_add(*e, s);
+        names.insert(f.rel.as_str());
+        // a path that occurs twice has ONE row and ONE source page: those of either record (which
+        // one survives depends on the order the worker threads take them)
+        let twins: Vec<Six> = if dups.contains_key(&f.rel) {
+            shown.iter().filter(|g| g.rel == f.rel).map(|g| six_of_cov(&g.cov, case.branch)).collect()
+        } else {
+            vec![s]
+        };
         match pages.get(&parent).and_then(|p| p.rows.iter().find(|r| r.name == name)) {
             Some(r) => {
-                if six_of_row(r) != s {
+                if !twins.contains(&six_of_row(r)) {
                     fail(&mut of, format!("html {}/index.html row {:?}: {:?}, the record has {:?}", parent, name, six_of_row(r), s));
                 }
             }
             None => fail(&mut of, format!("html: file {:?} is not listed in the page of its directory", f.rel)),
         }
-        // the source page shows the same figures as its row
+        // the source page shows the same figures as its row …
         if f.rel.rsplit('/').next().map(|n| n.contains('.')).unwrap_or(false) {
             let fp = out.join(format!("{}.html", f.rel));
-            match decode_html_page(&read(&fp)) {
+            let text = read(&fp);
+            match decode_html_page(&text) {
                 Ok(p) => {
                     check_page(&mut of, &format!("html {}.html", f.rel), &p, case);
-                    if six_of_summary(&p) != s {
+                    if !twins.contains(&six_of_summary(&p)) {
                         fail(&mut of, format!("html {}.html: summary {:?}, the record has {:?}", f.rel, six_of_summary(&p), s));
+                    }
+                    // … and its "Lines" figures are the counts of the rows the page lists (item 22)
+                    match decode_file_rows(&text) {
+                        Ok(rows) => {
+                            let n_src = source_text(f.src_lines).lines().count() as u64;
+                            if rows.len() as u64 != n_src || rows.iter().enumerate().any(|(i, r)| r.0 != i as u64 + 1) {
+                                fail(&mut of, format!("html {}.html lists {} rows for a source of {} lines", f.rel, rows.len(), n_src));
+                            }
+                            let listed = rows.iter().filter(|r| r.1.is_some()).count() as u64;
+                            let hit = rows.iter().filter(|r| r.1.map_or(false, |n| n > 0)).count() as u64;
+                            let hdr = six_of_summary(&p);
+                            crate::ROWS.with(|v| v.borrow_mut().push((
+                                format!("c13.html.rows s{} {}", hex(source_text(f.src_lines).as_bytes()),
+                                    show_cov(&shown.iter().rev().find(|g| g.rel == f.rel && six_of_cov(&g.cov, case.branch) == hdr).unwrap_or(f).cov)),
+                                format!("{},{} {},{} {}", hdr.0, hdr.1, listed, hit, rows.len()))));
+                            if (hdr.0, hdr.1) != (listed, hit) {
+                                // matcher of C13-html-header-counts-unlisted-lines: some line of the record
+                                // has no row (line 0, or a line beyond the end of the source) and the header
+                                // exceeds the listed rows by exactly those lines
+                                let rec = shown.iter().filter(|g| g.rel == f.rel).find(|g| six_of_cov(&g.cov, case.branch) == hdr).unwrap_or(f);
+                                let beyond = rec.cov.lines.iter().filter(|(&l, _)| l == 0 || l as u64 > n_src).count() as u64;
+                                let beyond_hit = rec.cov.lines.iter().filter(|(&l, &n)| (l == 0 || l as u64 > n_src) && n > 0).count() as u64;
+                                let named = beyond > 0 && hdr.0 == listed + beyond && hdr.1 == hit + beyond_hit;
+                                of.push(OFail {
+                                    finding: if named { Some(F_HTML_UNLISTED) } else { None },
+                                    what: format!("html {}.html: the header says {} / {} lines, the page lists {} instrumented rows, {} hit (source of {} lines, highest line of the record {})",
+                                        f.rel, hdr.1, hdr.0, listed, hit, n_src, rec.cov.lines.keys().last().copied().unwrap_or(0)),
+                                });
+                            }
+                        }
+                        Err(e) => fail(&mut of, format!("html {}.html rows: {}", f.rel, e)),
                     }
                 }
                 Err(e) => fail(&mut of, format!("html {}.html: {}", f.rel, e)),
@@ -759,8 +836,22 @@ fn obs_html(case: &Case, out: &Path) -> Result<Obs, String> {
         }
     }
     let n_rows: usize = pages.values().map(|p| p.rows.len()).sum();
-    if n_rows != shown.len() {
-        fail(&mut of, format!("html: {} file rows for {} shown files", n_rows, shown.len()));
+    if n_rows != names.len() {
+        fail(&mut of, format!("html: {} file rows for {} shown paths", n_rows, names.len()));
+    }
+    // matcher of C13-html-duplicate-path: the result set has two shown records with one reported
+    // path, and what fails is "the summary of that directory's page (or of the global index, whose
+    // row of that directory carries the same sums) is not the sum of its rows"
+    let dd = dup_dirs(case);
+    if !dd.is_empty() {
+        for f in of.iter_mut() {
+            if f.finding.is_none() && f.what.contains("but the rows sum to") {
+                let on_dup_page = dd.iter().any(|d| f.what.starts_with(&format!("html {}/index.html:", d)) || (d.is_empty() && f.what.starts_with("html index.html:")));
+                if on_dup_page {
+                    f.finding = Some(F_HTML_DUP);
+                }
+            }
+        }
     }
 
     // the top-level index lists the directories and carries the global totals; the badge and
@@ -799,6 +890,7 @@ fn obs_html(case: &Case, out: &Path) -> Result<Obs, String> {
     }
     let mut jf = vec![];
     check_rate(&mut jf, "html coverage.json message vs index.html line totals", &json, idx.1, idx.0, 100, tol, None);
+    judge_pct(&mut jf, "html coverage.json message", Kind::Json, case.precision, &json, idx.1, idx.0);
     for mut f in jf {
         f.finding = fnd;
         of.push(f);
@@ -829,6 +921,7 @@ mod tests {
             rel: rel.into(),
             rel_abs: false,
             exists: true,
+            src_lines: Some(9),
             cov: parse_cov(cov),
         };
         let case = Case {
